@@ -141,12 +141,12 @@ Fixpoint renames (l : list (path * path)) (f : fs) : fs * option err :=
   end.
 
 (* _force_clear: errors of class PathError are swallowed *)
-Definition force_clear (p : path) (f : fs) : fs * option err :=
+Definition force_clear (files : bool) (p : path) (f : fs) : fs * option err :=
   let r := match t_stat p f with
            | Er e => Er e
            | Ok Dir => t_delete_tree p f
            | Ok (Link _) => t_delete p f
-           | Ok (File _ _) => Ok f
+           | Ok (File _ _) => if files then t_delete p f else Ok f
            end in
   match r with
   | Ok f' => (f', None)
@@ -185,13 +185,13 @@ Definition exec_cmd (c : cmd) (u : ust) : ust * option err :=
   | MakeDir p => with_fs u (t_mkdir p (ufs u))
   | Symlink src link => with_fs u (t_symlink src link (ufs u))
   | UploadFileRobust p c x =>
-      let '(f, e) := force_clear p (ufs u) in
+      let '(f, e) := force_clear false p (ufs u) in
       match e with
       | Some _ => (u, e)
       | None => with_fs (mkust f (pdel u) (pren u) (ntmp u)) (t_put p c x f)
       end
   | SymlinkRobust link t =>
-      let '(f, e) := force_clear link (ufs u) in
+      let '(f, e) := force_clear true link (ufs u) in
       match e with
       | Some _ => (u, e)
       | None => with_fs (mkust f (pdel u) (pren u) (ntmp u))
@@ -230,27 +230,53 @@ Definition cmds_removed (new : tree) (l : list entry) : list cmd :=
          | _ => [DeleteFile (epath e)]
          end) l.
 
+(* a renamed entry whose kind or symlink target changed cannot be renamed into
+   shape: it is removed at its old path and created with the additions *)
+Definition recreate (c : change) : bool :=
+  negb (kind_eqb (enode (c_old c)) (enode (c_new c)))
+  || match enode (c_new c) with
+     | Link _ => changed_content (enode (c_old c)) (enode (c_new c))
+     | _ => false
+     end.
+(* a renamed file is uploaded again (at its old path) when its content or its
+   executable bit changed *)
+Definition reupload (c : change) : bool :=
+  changed_content (enode (c_old c)) (enode (c_new c))
+  || match enode (c_new c) with
+     | File _ x => negb (Bool.eqb (exec_of (enode (c_old c))) x)
+     | _ => false
+     end.
+Definition both_ignored (new : tree) (c : change) : bool :=
+  is_ignored new (epath (c_old c)) && is_ignored new (epath (c_new c)).
+
 Definition cmds_renamed (new : tree) (l : list change) : list cmd :=
   flat_map (fun c =>
     let p0 := epath (c_old c) in let p1 := epath (c_new c) in
-    if is_ignored new p0 && is_ignored new p1 then []
-    else (if changed_content (enode (c_old c)) (enode (c_new c))
+    if both_ignored new c then []
+    else if recreate c
+    then [match enode (c_old c) with Dir => DeleteDirMaybe p0 | _ => DeleteFile p0 end]
+    else (if reupload c
           then [UploadFile p0 (text_of (enode (c_new c))) (exec_of (enode (c_new c)))]
           else [])
          ++ [RenameRemote p0 p1]) l.
 
+(* the new entries of the renamed changes that are re-created *)
+Definition recreated (new : tree) (l : list change) : list entry :=
+  map c_new (filter (fun c => negb (both_ignored new c) && recreate c) l).
+
 Definition create_cmd (p : path) (n : node) : cmd :=
   match n with
   | File c x => UploadFile p c x
-  | Link t => Symlink [t] p
+  | Link t => SymlinkRobust p t
   | Dir => MakeDir p
   end.
 
+(* renames are finished: the entry is at its NEW path *)
 Definition cmds_kind_changed (new : tree) (l : list change) : list cmd :=
   flat_map (fun c =>
-    let p0 := epath (c_old c) in let p1 := epath (c_new c) in
+    let p1 := epath (c_new c) in
     if is_ignored new p1 then []
-    else [match enode (c_old c) with Dir => DeleteDir p0 | _ => DeleteFile p0 end;
+    else [match enode (c_old c) with Dir => DeleteDir p1 | _ => DeleteFile p1 end;
           create_cmd p1 (enode (c_new c))]) l.
 
 Definition cmds_added (new : tree) (l : list entry) : list cmd :=
@@ -263,16 +289,20 @@ Definition cmds_modified (new : tree) (l : list change) : list cmd :=
     if is_ignored new p1 then []
     else [match enode (c_new c) with
           | File cc x => UploadFile p1 cc x
-          | Link t => Symlink [t] p1
+          | Link t => SymlinkRobust p1 t
           | Dir => Raise NotImplemented
           end]) l.
+
+(* sorted(changes.added + changes.copied + recreated, key=path[1]) *)
+Definition d_created (old new : tree) : list entry :=
+  sort_by epath (d_added old new ++ recreated new (d_renamed old new)).
 
 Definition upload_incremental (old new : tree) (revid : N) : list cmd :=
   cmds_removed new (d_removed old new)
   ++ cmds_renamed new (d_renamed old new)
-  ++ [FinishRenames; FinishDeletions]
+  ++ [FinishDeletions; FinishRenames]
   ++ cmds_kind_changed new (d_kind_changed old new)
-  ++ cmds_added new (d_added old new)
+  ++ cmds_added new (d_created old new)
   ++ cmds_modified new (d_modified old new)
   ++ [SetRevid revid].
 
